@@ -166,3 +166,117 @@ Definition cmp_resultant (tol : Q) (weight : bool) (bi : nat) (b : bar Q) : list
   (if near tol (t_mz lhs) (t_mz rhs) then [] else [(bi, 2%nat)]).
 Definition cmp_resultants (tol : Q) (weight : bool) (bars : list (bar Q * list (pnode Q))) : list (nat * nat) :=
   flat_map (fun p => cmp_resultant tol weight (fst p) (fst (snd p))) (indexed bars).
+
+(* ---- stage F: what solve derives from the solver's answer ---- *)
+From Inkfem Require Import Model.Recover.
+
+(* observed solution of one bar: displacement triples per node (global, local) and the four
+   listed series *)
+Record sol_obs := {
+  so_gd : list (Q * tor Q); so_ld : list (Q * tor Q);
+  so_ax : list (Q * Q); so_sh : list (Q * Q); so_bm : list (Q * Q); so_tf : list (Q * Q) }.
+
+Record solve_case := {
+  sv_bars : list (pbar Q);
+  sv_u : list Q;                         (* the solver's answer, as the implementation saw it *)
+  sv_eps : Q;                            (* maximum displacement error (merge epsilon) *)
+  sv_obs : list sol_obs;                 (* per bar, in solution order *)
+  sv_reactions : list (nat * tor Q)      (* (node index, reported reaction) *)
+}.
+
+Definition teq_x (a : X) (b : Q) : bool := nltb (nabs (nsub (fst a) (bq b))) (bq (1 # 10000000000)).
+
+(* Go's listing of a series against the model's unmerged sequence of (is_trail, t, value):
+   a trail value is listed unless it equals the last listed value within eps; whether it was
+   merged is decided by the implementation on float values, so either outcome is accepted when
+   the model's difference is within the comparison tolerance of eps.  Returns the number of
+   the first model entry that does not fit, if any. *)
+Fixpoint walk_series (tol : Q) (eps : X) (k : nat) (last : option X)
+         (model : list (bool * X * X)) (obs : list (Q * Q)) : list nat :=
+  match model with
+  | [] => match obs with [] => [] | _ => [k] end
+  | (is_trail, t, v) :: model' =>
+    let here := match obs with (to, _) :: _ => teq_x t to | [] => false end in
+    if is_trail then
+      let band := match last with
+                  | Some l => nmul (bq tol) (nadd (snd v) (snd l)) | None => n0 end in
+      let diff := match last with Some l => nabs (nsub (fst v) (fst l)) | None => n0 end in
+      if here then
+        match obs with
+        | (_, vo) :: obs' =>
+          let may_list := match last with
+                          | Some _ => nleb (nsub (fst eps) band) diff | None => true end in
+          if agrees tol v vo && may_list then walk_series tol eps (S k) (Some v) model' obs' else [k]
+        | [] => [k]
+        end
+      else
+        match last with
+        | Some _ => if nltb diff (nadd (fst eps) band) then walk_series tol eps (S k) last model' obs else [k]
+        | None => [k]
+        end
+    else
+      match obs with
+      | (_, vo) :: obs' =>
+        if here && agrees tol v vo then walk_series tol eps (S k) (Some v) model' obs' else [k]
+      | [] => [k]
+      end
+  end.
+
+(* the model's unmerged sequence for one of the four quantities *)
+Fixpoint unmerged_from (b : bar X) (u : list X) (sel : q4 -> X) (na : pnode X) (da : dof3)
+         (rest : list (pnode X * dof3)) : list (bool * X * X) :=
+  match rest with
+  | [] => []
+  | (nb, db) :: rest' =>
+    let r := slice_recover b u na nb da db in
+    (true, pn_t na, sel (fst r)) :: (false, pn_t nb, sel (snd r)) :: unmerged_from b u sel nb db rest'
+  end.
+Definition unmerged (p : pbar X) (u : list X) (sel : q4 -> X) : list (bool * X * X) :=
+  match combine (pb_nodes p) (pb_dofs p) with
+  | [] => []
+  | (na, da) :: rest => unmerged_from (pb_bar p) u sel na da rest
+  end.
+
+Definition cmp_displ (tol : Q) (bi code : nat) (m : list (X * tor X)) (o : list (Q * tor Q)) : list (nat * nat * nat) :=
+  if negb (Nat.eqb (length m) (length o)) then [(bi, code, 999%nat)] else
+  flat_map (fun p => let mm := fst (snd p) in let oo := snd (snd p) in
+      if teq_x (fst mm) (fst oo) && agrees_tor tol (snd mm) (snd oo) then [] else [(bi, code, fst p)])
+    (indexed (combine m o)).
+
+(* mismatch codes: (bar, 1, node) global displacements; (bar, 2, node) local; (bar, 3..6, k)
+   axial / shear / bending / top fibre at model entry k; (node, 7, component) reaction *)
+Definition cmp_solution (tol : Q) (c : solve_case) : list (nat * nat * nat) :=
+  let bars := map pbar_x (sv_bars c) in
+  let u := map xq (sv_u c) in
+  let eps := xq (sv_eps c) in
+  flat_map (fun q => let bi := fst q in let p := fst (snd q) in let o := snd (snd q) in
+      cmp_displ tol bi 1 (displ_global p u) (so_gd o) ++
+      cmp_displ tol bi 2 (displ_local p u) (so_ld o) ++
+      map (fun k => (bi, 3%nat, k)) (walk_series tol eps 0 None (unmerged p u q_ax) (so_ax o)) ++
+      map (fun k => (bi, 4%nat, k)) (walk_series tol eps 0 None (unmerged p u q_sh) (so_sh o)) ++
+      map (fun k => (bi, 5%nat, k)) (walk_series tol eps 0 None (unmerged p u q_bm) (so_bm o)) ++
+      map (fun k => (bi, 6%nat, k)) (walk_series tol eps 0 None (unmerged p u q_tf) (so_tf o)))
+    (indexed (combine bars (sv_obs c))) ++
+  (if Nat.eqb (length bars) (length (sv_obs c)) then [] else [(length bars, 0%nat, 0%nat)]) ++
+  flat_map (fun r => let m := reaction_at eps bars u (fst r) in
+      (if agrees tol (t_fx m) (t_fx (snd r)) then [] else [(fst r, 7%nat, 0%nat)]) ++
+      (if agrees tol (t_fy m) (t_fy (snd r)) then [] else [(fst r, 7%nat, 1%nat)]) ++
+      (if agrees tol (t_mz m) (t_mz (snd r)) then [] else [(fst r, 7%nat, 2%nat)]))
+    (sv_reactions c).
+
+(* ---- stage E: the decision about the solver's answer ---- *)
+Record accept_case := {
+  ac_K : list (nat * nat * Q); ac_F : list Q;
+  ac_u : list (option Q);               (* None = NaN / Inf *)
+  ac_eps : Q;
+  ac_accepted : bool                    (* the implementation went on to write results *)
+}.
+(* the model's verdict at the plain BigQ instance; the caller keeps residuals away from eps *)
+Definition cmp_accept (c : accept_case) : list nat :=
+  let K := map (fun e => (fst e, bq (snd e))) (ac_K c) in
+  let f := map bq (ac_F c) in
+  let o := map (fun x => match x with Some v => Some (bq v) | None => None end) (ac_u c) in
+  match accept (bq (ac_eps c)) K f o with
+  | Some _ => if ac_accepted c then [] else [1%nat]
+  | None => if ac_accepted c then [2%nat] else []
+  end.
